@@ -21,7 +21,8 @@ SOLVERS = {
 }
 
 STATS = {"queries": 0, "unsat": 0, "sat": 0, "unknown": 0, "error": 0, "solver_s": 0.0,
-         "by_solver": {}, "max_query_s": 0.0}
+         "by_solver": {}, "max_query_s": 0.0, "cross_checked": 0, "cross_disagreements": 0}
+CROSS = {"n": 0}
 QUERY_LOG = []          # small sample of (label, status, seconds, bytes)
 
 
@@ -366,6 +367,23 @@ def run_solver(body, timeout=20, solver="z3", label="", keep=None):
     bs["queries"] += 1; bs["solver_s"] += dt
     if len(QUERY_LOG) < 40:
         QUERY_LOG.append({"label": label, "status": status, "s": round(dt, 3), "bytes": len(body), "solver": solver})
+    # "diff two solvers": in the thorough tier every 8th decided query is re-solved with z3 5.1 (short cap);
+    # a sat/unsat contradiction is a harness error
+    if solver == "z3" and status in ("sat", "unsat") and os.environ.get("VERIF_TIER") == "thorough" and dt < 5.0:
+        import zlib
+        if zlib.crc32(body.encode()) % 6 == 0:
+            try:
+                fd2, p2 = tempfile.mkstemp(suffix=".smt2", dir=_tmpdir())
+                with os.fdopen(fd2, "w") as f2: f2.write(body)
+                o2 = subprocess.run(SOLVERS["z3new"] + ["-T:10", p2], capture_output=True, text=True, timeout=20).stdout.strip().split("\n", 1)[0].strip()
+                os.unlink(p2)
+                if o2 in ("sat", "unsat"):
+                    STATS["cross_checked"] += 1
+                    if o2 != status:
+                        STATS["cross_disagreements"] += 1
+                        QUERY_LOG.append({"label": label, "status": f"DISAGREE z3={status} z3new={o2}", "s": 0, "bytes": len(body), "solver": "z3new"})
+            except Exception:
+                pass
     return Result(status, model, dt, out[:2000], solver, len(body))
 
 
@@ -425,5 +443,5 @@ def parse_model(txt):
 
 def reset_stats():
     STATS.update({"queries": 0, "unsat": 0, "sat": 0, "unknown": 0, "error": 0, "solver_s": 0.0,
-                  "by_solver": {}, "max_query_s": 0.0})
+                  "by_solver": {}, "max_query_s": 0.0, "cross_checked": 0, "cross_disagreements": 0})
     QUERY_LOG.clear()
